@@ -8,6 +8,7 @@ import (
 	"go/token"
 	"go/types"
 	"sort"
+	"strings"
 
 	"golang.org/x/tools/go/ssa"
 )
@@ -41,20 +42,14 @@ func lookupOrderRuleSSA(r *Run, rule string) {
 	inline := func(caller, callee *ssa.Function) bool {
 		return callee.Pkg == fn.Pkg && callee != fn && callee.Object() != nil && !callee.Object().Exported() && !funcHasLoop(callee)
 	}
-	paths, ok := walkPaths(fn, nil, inline)
-	if !ok {
+	pw := &pathWalker{inline: inline, unroll1: true, maxPaths: 20000, maxDepth: 4, runDefers: true}
+	pw.walk(fn)
+	if pw.overflow {
 		r.Lost(rule, "paths of Context.Value")
 		return
 	}
+	paths := pw.paths
 	name := f.Name()
-	recvField := func(p *pwPath, v ssa.Value, idx int) bool {
-		ld, ok := p.resolve(v).(*ssa.UnOp)
-		if !ok || ld.Op != token.MUL {
-			return false
-		}
-		fa, ok := ld.X.(*ssa.FieldAddr)
-		return ok && fa.Field == idx && p.resolve(fa.X) == ssa.Value(recv)
-	}
 	var bads []string
 	badAt := map[string]token.Pos{}
 	addBad := func(s string, at token.Pos) {
@@ -68,46 +63,27 @@ func lookupOrderRuleSSA(r *Run, rule string) {
 		if p.end != "return" || len(p.results) != 1 {
 			continue
 		}
-		// the facts of this path
-		isString, found, outerNil := -1, -1, -1 // -1 undecided, 0 false, 1 true
-		var lookups []*ssa.Lookup
-		var nameV ssa.Value
-		for _, ev := range p.events {
-			if lk, ok := ev.(*ssa.Lookup); ok && recvField(p, lk.X, dataI) {
-				lookups = append(lookups, lk)
+		// field idx of the scope `base`
+		fieldOf := func(v ssa.Value, base ssa.Value, idx int) bool {
+			ld, ok := p.resolve(v).(*ssa.UnOp)
+			if !ok || ld.Op != token.MUL {
+				return false
 			}
+			fa, ok := ld.X.(*ssa.FieldAddr)
+			return ok && fa.Field == idx && p.resolve(fa.X) == base
 		}
-		otherValueTest := false
+		// is the key: the parameter, or the string the assertion took from it (possibly boxed again)
+		var nameV ssa.Value
+		isString := -1
 		for _, d := range p.decisions {
 			if ex, ok := d.cond.(*ssa.Extract); ok && ex.Index == 1 {
 				if ta, ok := ex.Tuple.(*ssa.TypeAssert); ok && ta.CommaOk && p.resolve(ta.X) == ssa.Value(key) && isBasicKind(ta.AssertedType, types.String) {
 					isString = map[bool]int{true: 1, false: 0}[d.truth]
 					nameV = ta
-					continue
-				}
-				if lk, ok := ex.Tuple.(*ssa.Lookup); ok && lk.CommaOk && recvField(p, lk.X, dataI) {
-					found = map[bool]int{true: 1, false: 0}[d.truth]
-					continue
-				}
-			}
-			if x, op, ok := isNilCompare(p, d.cond); ok {
-				if recvField(p, x, outerI) {
-					outerNil = map[bool]int{true: 1, false: 0}[d.truth == (op == token.EQL)]
-					continue
-				}
-				// a nil test of the looked-up value decides nothing about presence
-				if ex, ok := p.resolve(x).(*ssa.Extract); ok && ex.Index == 0 {
-					if lk, ok := ex.Tuple.(*ssa.Lookup); ok && recvField(p, lk.X, dataI) {
-						otherValueTest = true
-					}
-				}
-				if lk, ok := p.resolve(x).(*ssa.Lookup); ok && recvField(p, lk.X, dataI) {
-					otherValueTest = true
 				}
 			}
 		}
 		isNameArg := func(v ssa.Value) bool {
-			// the string taken from the key by the assertion (possibly boxed again)
 			v = p.resolve(stripIface(p.resolve(v)))
 			if v == ssa.Value(key) {
 				return true
@@ -115,70 +91,176 @@ func lookupOrderRuleSSA(r *Run, rule string) {
 			ex, ok := v.(*ssa.Extract)
 			return ok && ex.Index == 0 && nameV != nil && ex.Tuple == nameV
 		}
+		// walk the chain of scopes the path visits: cur starts at the receiver; a miss in cur followed by
+		// "cur.outer is not nil" may step to cur.outer (the loop form), or hand over to Value of cur.outer (the recursive form)
+		cur := ssa.Value(recv)
+		steps := 0
+		type scopeFacts struct {
+			lookup   *ssa.Lookup
+			found    int // -1 undecided
+			outerNil int
+		}
+		facts := map[ssa.Value]*scopeFacts{cur: {found: -1, outerNil: -1}}
+		order := []ssa.Value{cur}
+		valueTest := false
+		broken := ""
+		var brokenAt token.Pos
+		for _, ev := range p.events {
+			lk, ok := ev.(*ssa.Lookup)
+			if !ok {
+				continue
+			}
+			base := ssa.Value(nil)
+			if ld, ok := p.resolve(lk.X).(*ssa.UnOp); ok && ld.Op == token.MUL {
+				if fa, ok := ld.X.(*ssa.FieldAddr); ok && fa.Field == dataI {
+					base = p.resolve(fa.X)
+				}
+			}
+			if base == nil {
+				continue
+			}
+			if base != cur {
+				// a step outwards: base must be cur.outer
+				if !fieldOf(base, cur, outerI) {
+					broken, brokenAt = "a scope other than the receiver or the next outer one is looked up", lk.Pos()
+					break
+				}
+				fc := facts[cur]
+				if fc.lookup == nil {
+					broken, brokenAt = "the outer scope is looked up before the local one", lk.Pos()
+					break
+				}
+				cur = base
+				steps++
+				facts[cur] = &scopeFacts{found: -1, outerNil: -1}
+				order = append(order, cur)
+			}
+			if facts[cur].lookup != nil {
+				broken, brokenAt = "one scope is looked up twice", lk.Pos()
+				break
+			}
+			facts[cur].lookup = lk
+			if !lk.CommaOk {
+				broken, brokenAt = "the local lookup must use the comma-ok form: a key that is present with a nil value must still shadow the outer scope", lk.Pos()
+				break
+			}
+			if !isNameArg(lk.Index) {
+				broken, brokenAt = "a scope's map is looked up with something else than the key", lk.Pos()
+				break
+			}
+		}
+		if broken != "" {
+			addBad(broken, brokenAt)
+			continue
+		}
+		for _, d := range p.decisions {
+			if ex, ok := d.cond.(*ssa.Extract); ok && ex.Index == 1 {
+				if lk, ok := ex.Tuple.(*ssa.Lookup); ok {
+					for _, fc := range facts {
+						if fc.lookup == lk {
+							fc.found = map[bool]int{true: 1, false: 0}[d.truth]
+						}
+					}
+					continue
+				}
+			}
+			if x, op, ok := isNilCompare(p, d.cond); ok {
+				matched := false
+				for sc, fc := range facts {
+					if fieldOf(x, sc, outerI) {
+						fc.outerNil = map[bool]int{true: 1, false: 0}[d.truth == (op == token.EQL)]
+						matched = true
+					}
+				}
+				if matched {
+					continue
+				}
+				// a nil test of a looked-up value decides nothing about presence
+				xv := p.resolve(x)
+				if ex, ok := xv.(*ssa.Extract); ok && ex.Index == 0 {
+					if _, ok := ex.Tuple.(*ssa.Lookup); ok {
+						valueTest = true
+					}
+				}
+				if _, ok := xv.(*ssa.Lookup); ok {
+					valueTest = true
+				}
+			}
+		}
+		// every scope left behind was missed and had an outer scope
+		okChain := true
+		for i, sc := range order[:len(order)-1] {
+			_ = i
+			if fc := facts[sc]; fc.found != 0 || fc.outerNil != 0 {
+				okChain = false
+			}
+		}
+		last := facts[cur]
 		res := p.resolve(p.results[0])
 		switch {
 		case func() bool {
 			ex, ok := res.(*ssa.Extract)
-			if !ok || ex.Index != 0 {
-				return false
-			}
-			lk, ok := ex.Tuple.(*ssa.Lookup)
-			return ok && recvField(p, lk.X, dataI)
+			return ok && ex.Index == 0 && last.lookup != nil && ex.Tuple == ssa.Value(last.lookup)
 		}():
-			if isString != 1 || found != 1 {
-				addBad("the local value is returned without the key having been found (the hit must be decided by the map's ok flag)", p.ret.Pos())
-			} else if otherValueTest {
-				addBad("the local hit depends on the stored value (a key that is present with a nil value must still shadow the outer scope)", p.ret.Pos())
-			} else {
+			switch {
+			case isString != 1 || last.found != 1 || !okChain:
+				addBad("a scope's value is returned without the key having been found there by the map's ok flag (after every nearer scope missed)", p.ret.Pos())
+			case valueTest:
+				addBad("the hit depends on the stored value (a key that is present with a nil value must still shadow the outer scope)", p.ret.Pos())
+			case steps == 0:
 				nHit++
+			default:
+				nOuter++
 			}
-			if lk := res.(*ssa.Extract).Tuple.(*ssa.Lookup); !isNameArg(lk.Index) {
-				addBad("the local map is looked up with something else than the key", p.ret.Pos())
-			}
-		case func() bool {
-			_, ok := res.(*ssa.Lookup)
-			return ok
-		}():
-			addBad("the local lookup must use the comma-ok form: a key that is present with a nil value must still shadow the outer scope", p.ret.Pos())
 		default:
 			c, isCall := res.(*ssa.Call)
 			switch {
-			case isCall && c.Call.StaticCallee() == fn && len(c.Call.Args) == 2 && recvField(p, c.Call.Args[0], outerI):
-				if isString != 1 || found != 0 || outerNil != 0 || len(lookups) != 1 {
+			case isCall && c.Call.StaticCallee() == fn && len(c.Call.Args) == 2 && fieldOf(c.Call.Args[0], cur, outerI):
+				if isString != 1 || last.found != 0 || last.outerNil != 0 || !okChain {
 					addBad("the outer scope must be consulted exactly when the key is not in the local map and an outer scope exists", p.ret.Pos())
 				} else if !isNameArg(c.Call.Args[1]) {
 					addBad("the outer scope is asked for another key", p.ret.Pos())
 				} else {
 					nOuter++
 				}
-			case isCall && c.Call.IsInvoke() && c.Call.Method.Name() == "Value" && recvField(p, c.Call.Value, embI):
+			case isCall && c.Call.IsInvoke() && c.Call.Method.Name() == "Value" && func() bool {
+				for _, sc := range order {
+					if fieldOf(c.Call.Value, sc, embI) {
+						return true
+					}
+				}
+				return false
+			}():
 				switch {
-				case isString == 0 && len(lookups) == 0:
+				case isString == 0 && last.lookup == nil && steps == 0:
 					nEmbOther++
-				case isString == 1 && found == 0 && outerNil == 1 && len(lookups) == 1:
+				case isString == 1 && last.found == 0 && last.outerNil == 1 && okChain && fieldOf(c.Call.Value, cur, embI):
 					nEmbStr++
 				default:
-					addBad("the embedded context must be consulted last: only for a non-string key, or when neither the local map nor an outer scope has the key", p.ret.Pos())
+					addBad("the embedded context must be consulted last: only for a non-string key, or when no scope of the chain has the key (and then that of the outermost scope reached)", p.ret.Pos())
 				}
 				if len(c.Call.Args) != 1 || p.resolve(c.Call.Args[0]) != ssa.Value(key) {
 					addBad("the embedded context is asked for another key", p.ret.Pos())
 				}
 			default:
-				addBad("Value returns something that is none of: the local value, the outer scope's answer, the embedded context's answer", p.ret.Pos())
+				if _, isLk := res.(*ssa.Lookup); isLk {
+					addBad("the local lookup must use the comma-ok form: a key that is present with a nil value must still shadow the outer scope", p.ret.Pos())
+				} else {
+					addBad("Value returns something that is none of: a scope's own value, the outer scope's answer, the embedded context's answer", p.ret.Pos())
+				}
 			}
 		}
 	}
 	if nHit == 0 || nOuter == 0 || nEmbStr == 0 || nEmbOther == 0 {
 		addBad(fmt.Sprintf("not every step of the lookup has a path (local hit %d, outer %d, embedded after a miss %d, embedded for a non-string key %d)", nHit, nOuter, nEmbStr, nEmbOther), fn.Pos())
 	}
+	con := "lookup order local < outer < embedded"
 	if len(bads) > 0 {
 		sort.Strings(bads)
-		for _, b := range bads {
-			r.Bad(rule, name, "lookup order: "+b, w.Pos(badAt[b]), "the nearest scope wins: local map (decided by the ok flag), then outer when it exists, then the embedded context")
-		}
+		r.Bad(rule, name, con, w.Pos(badAt[bads[0]]), strings.Join(bads, "; "))
 		return
 	}
-	r.Ok(rule, name, "lookup order local < outer < embedded", w.Pos(fn.Pos()), fmt.Sprintf("%d path(s): local hit by the ok flag; outer exactly when missed and present; embedded context last", len(paths)))
+	r.Ok(rule, name, con, w.Pos(fn.Pos()), fmt.Sprintf("%d path(s): hit by the ok flag of the nearest scope that has the key; outwards exactly when missed and an outer scope exists; embedded context last", len(paths)))
 }
 
 // helperInjectionRuleSSA (C10.R4): in every constructor of Context (a function
